@@ -18,6 +18,15 @@ def wellformed(r):
     return True
 
 
+def inexact(p):
+    """does the tree value have a separator that is smaller than the smallest key below it?"""
+    def mn(q):
+        return q['ks'][0] if q['t'] == 'L' else mn(q['kids'][0])
+    if p['t'] == 'L' or not p['kids']:
+        return False
+    return any(s_ != mn(c) for s_, c in zip(p['seps'], p['kids'][1:])) or any(inexact(c) for c in p['kids'])
+
+
 def main():
     ck = common.Check('C02')
     quick = ck.tier == 'quick'
@@ -28,7 +37,7 @@ def main():
         for invs in ([INVS[0] + INVS[1] + INVS[2]] if quick else INVS):
             if not quick and nk >= 7 and invs != INVS[0]:
                 continue
-            r = tlc.run('RangeImpl', shapes.cfg(nk, 1, lf, it, spec='SpecCore', invariants=invs, firstkey=2), timeout=3400)
+            r = tlc.run('RangeImpl', shapes.cfg(nk, 1, lf, it, spec='SpecLoose', invariants=invs, firstkey=2), timeout=3400)
             ck.add_tlc(r.summary(), 'RangeImpl %s keys=%d sizes=(%d,%d)' % ('+'.join(invs), nk, lf, it))
             common.tlc_verdict(ck, r, ck.notes['tlc_runs'][-1]['name'])
     # non-vacuity: each named deviation (the behaviour before the corresponding fix) must be refuted
@@ -44,16 +53,24 @@ def main():
     dspec = [(5, 1, 2, 2), (4, 2, 3, 2)] if quick else [(6, 1, 2, 2), (5, 2, 2, 2), (5, 2, 3, 2), (6, 1, 2, 3)]
     for (nk, nv, lf, it) in dspec:
         # model keys 1..nk are embedded at ranks 2..nk+1: rank 1 and nk+2 are bounds outside everything
-        fn, payloads, summ = shapes.dump_file(nk, nv, lf, it, spec='SpecCore')
+        # (SpecLoose: also trees whose separators are smaller than the smallest key below them - loaded states)
+        fn, payloads, summ = shapes.dump_file(nk, nv, lf, it, spec='SpecLoose')
         ck.add_tlc(summ, 'dump keys=%d sizes=(%d,%d)' % (nk, lf, it))
         from harness import graph
-        nstates = len(graph.Graph(payloads).states())
+        allstates = graph.Graph(payloads).states()
+        nstates = len(allstates)
+        loose = [i for i, st_ in enumerate(allstates) if inexact(st_)]
+        ck.bump('shapes_with_loose_separators', len(loose))
         for fam in fams:
             for impl in ('c', 'py'):
                 budget = (100 if impl == 'c' else 40) if quick else (3000 if impl == 'c' else 800)
                 sel = list(range(nstates))
                 if nstates > budget:
-                    sel = sorted(ck.rng.sample(sel, budget))
+                    # (a third of the sample from the shapes with loose separators)
+                    nl = min(len(loose), budget // 3)
+                    pick = set(ck.rng.sample(loose, nl))
+                    rest = [i for i in sel if i not in pick]
+                    sel = sorted(pick | set(ck.rng.sample(rest, budget - nl)))
                 for is_set in ([False] if nv > 1 else [True, False]):
                     # ('ext' puts negative numbers, zero and the extremes among keys and bounds; quick tier: for the sets)
                     embs = ['mid'] if fam[0] == 'O' else (['ext' if is_set else 'mid'] if quick else ['mid', 'ext'])
